@@ -99,6 +99,11 @@ func run(c config, hist []int, reuse bool) (*emitted, *vsched.Result) {
 					}
 				}
 				_ = h.SetExtension(hk.TwccExtID, []byte{byte(wseq >> 8), byte(wseq)})
+				if a == 1 && wseq%2 == 0 {
+					// the same extension with a longer value on every second packet of this shape: same layout
+					// (profile, number of extensions), different size
+					_ = h.SetExtension(1, []byte{'m', 'i', 'd', '-', 'l', 'o', 'n', 'g', 'e', 'r'})
+				}
 				sent = append(sent, wseq)
 				if reuse {
 					copyHeaderInto(hdr, &h)
